@@ -4,6 +4,8 @@
 package streamkit
 
 import (
+	"crypto/sha256"
+	"encoding/hex"
 	"errors"
 	"io"
 
@@ -150,6 +152,8 @@ func ErrClass(err error) string {
 		return "err"
 	case errors.Is(err, ErrClosed):
 		return "closed"
+	case errors.Is(err, ErrWrite):
+		return "werr"
 	case err == io.ErrUnexpectedEOF:
 		return "ueof"
 	case err == io.ErrNoProgress:
@@ -158,4 +162,53 @@ func ErrClass(err error) string {
 		return "already"
 	}
 	return "other"
+}
+
+// ---- scripted writers (Codecs!WrWrite) -------------------------------------
+
+// ErrWrite is the error of a scripted writer that has reached its limit.
+var ErrWrite = errors.New("streamkit: scripted write error")
+
+// WCore is a writer that accepts Accept bytes in total (-1: unlimited); a
+// Write that would exceed the limit stores what fits and fails.
+type WCore struct {
+	Accept int
+	Got    []byte
+	Writes int
+	Closes int
+}
+
+func (w *WCore) write(p []byte) (int, error) {
+	w.Writes++
+	if w.Accept < 0 || len(w.Got)+len(p) <= w.Accept {
+		w.Got = append(w.Got, p...)
+		return len(p), nil
+	}
+	m := w.Accept - len(w.Got)
+	if m < 0 {
+		m = 0
+	}
+	w.Got = append(w.Got, p[:m]...)
+	return m, ErrWrite
+}
+
+// Writer is a scripted io.Writer without Close.
+type Writer struct{ WCore }
+
+func (w *Writer) Write(p []byte) (int, error) { return w.write(p) }
+
+// WriteCloser is a scripted io.WriteCloser.
+type WriteCloser struct{ WCore }
+
+func (w *WriteCloser) Write(p []byte) (int, error) { return w.write(p) }
+func (w *WriteCloser) Close() error                { w.Closes++; return nil }
+
+// Blob renders a byte string for the trace: length, and either the bytes
+// (small) or the SHA-256 (large) - Codecs!Blob.
+func Blob(b []byte) drv.M {
+	if len(b) <= 64 {
+		return drv.M{"n": len(b), "h": "", "b": trace.B(string(b))}
+	}
+	h := sha256.Sum256(b)
+	return drv.M{"n": len(b), "h": hex.EncodeToString(h[:]), "b": []int{}}
 }
